@@ -59,6 +59,10 @@ def subharnesses(tier):
                         n, nlim, replaced, 'spelled' if spelled else 'ints'),
                         {'n': n, 'nlim': nlim, 'replaced': replaced,
                          'spelled': spelled}))
+    for n in (1, 2):
+        subs.append(('n%d-limit_on_second_trait-ints' % n,
+                     {'n': n, 'nlim': 1, 'replaced': None, 'spelled': False,
+                      'limit_second_only': True}))
     subs.append(('no-partition', {'n': 1, 'nlim': 0, 'replaced': None,
                                   'spelled': False, 'missing': True}))
     return subs
@@ -111,7 +115,10 @@ def harness(S, spec):
     part, pv = _triple(S, 'part', sp, hi)
     part['limits'] = []
     lim_vals = {}
-    for t in TRAITS[:spec['nlim']]:
+    lim_traits = TRAITS[:spec['nlim']]
+    if spec.get('limit_second_only'):
+        lim_traits = TRAITS[1:2]
+    for t in lim_traits:
         lim, lv = _triple(S, 'limit_' + t, sp, hi)
         lim['trait'] = t
         part['limits'].append(lim)
